@@ -29,6 +29,11 @@ type Violation struct {
 	Oracle  string `json:"oracle"`  // which oracle fired
 	Class   string `json:"class"`   // stable signature: known-findings key and minimisation target
 	Message string `json:"message"` // human readable, may contain run-specific detail
+	// Flaky marks an observation that depends on nondeterminism outside the
+	// choice stream (a real OS process, the runtime's own map order): the
+	// runner reports it only if one of several fresh-process replays
+	// reproduces a violation.
+	Flaky bool `json:"flaky,omitempty"`
 }
 
 // Run is what one simulated execution reports.
@@ -94,6 +99,7 @@ type Found struct {
 	Message string `json:"message"`
 	Replay  string `json:"replay"`
 	Count   int64  `json:"count"`
+	Flaky   bool   `json:"flaky,omitempty"`
 }
 
 // Report is what a worker writes for the runner.
@@ -315,7 +321,7 @@ func Main(h *Harness) {
 			f.Count++
 			return
 		}
-		f := &Found{Class: v.Class, Oracle: v.Oracle, Message: v.Message, Count: 1}
+		f := &Found{Class: v.Class, Oracle: v.Oracle, Message: v.Message, Count: 1, Flaky: v.Flaky}
 		found[v.Class] = f
 		rf := &ReplayFile{Property: h.Property, Seed: c.Seed, Run: c.RunIx, EnumCase: enumCase, Args: c.Args,
 			Choices: c.S.Recorded(), Oracle: v.Oracle, Class: v.Class, Message: v.Message}
@@ -323,7 +329,7 @@ func Main(h *Harness) {
 			rf.Choices = r.Choices
 		}
 		rf.OrigLen = len(rf.Choices)
-		if !knownSet[v.Class] && !h.NoInProcessMinimise && minBudget > 0 {
+		if !knownSet[v.Class] && !h.NoInProcessMinimise && minBudget > 0 && !v.Flaky {
 			t0 := time.Now()
 			mt := h.MinTime
 			if mt > minBudget {
